@@ -399,6 +399,17 @@ def svcDelete (s : St) (o : Own) (byOwner : Bool) : St × Res :=
     | (_, r) => ({ s with devs, kdevs, prodSet, nonprodSet }, r)
   | none => ({ s with devs, kdevs, held }, .ok)
 
+/-- `on_delete_request(rsrc_id)` interrupted by a failure of the mark-rule removal (`ipset` /
+    `iptables` call raising): the veth is gone and the device record was popped; the mark, the VIP
+    and the owner's claim are still there (a later `synchronize` / retry has to deal with them). -/
+def svcDeleteCut (s : St) (o : Own) : St × Res :=
+  match (devLookup o s.devs).bind (fun d => d.ip.map (fun a => (a, d.env))) with
+  | some (_, some _) =>
+    ({ s with devs := devPop o s.devs, kdevs := s.kdevs.filter (· ≠ o),
+              -- the owner asked for the release: it no longer relies on the address
+              held := s.held.filter (fun p => !(p.1 == o && p.2.tbl == .svip)) }, .exc)
+  | _ => svcDelete s o true          -- no mark rule to remove: nothing for the fault to hit
+
 /-- The stale pass of `synchronize` (stops at the first failing delete, like the `for` loop). -/
 def expunge : List Own → St → St × Res
   | [], s => (s, .ok)
@@ -440,6 +451,7 @@ inductive Op
   | svcRestart
   | svcCreate (o : Own) (env : Option Bool)
   | svcDelete (o : Own)
+  | svcDeleteCut (o : Own)
   | svcSync
   deriving Repr
 
@@ -463,6 +475,7 @@ def step (c : Cidr) (s : St) : Op → St × Res
   | .svcRestart => (svcRestart s, .ok)
   | .svcCreate o env => svcCreate s o env
   | .svcDelete o => svcDelete s o true
+  | .svcDeleteCut o => svcDeleteCut s o
   | .svcSync => svcSync s
 
 def run (c : Cidr) (s : St) (ops : List Op) : St := ops.foldl (fun s op => (step c s op).1) s
@@ -499,6 +512,7 @@ def opOk (inst : Nat → Bool) (s : St) : Op → Bool
   | .svcRestart => true
   | .svcCreate o _ => ownerOk inst o
   | .svcDelete o => ownerOk inst o
+  | .svcDeleteCut o => ownerOk inst o
   | .svcSync => s.devs.all (fun e => e.2.stale == !s.live.contains e.1)
 
 /-- A history inside the domain: every operation is admissible in the state it is issued in. -/
